@@ -118,6 +118,30 @@ def gen_exchange(rng, tag, key, last, quick):
         rhs.append((rc.rand_case(rng, AUTH), rng.choice(["host-supplied", "value", "Azure-HMAC-SHA256 x y"])))
     if rng.random() < 0.15:
         rhs.append(("Date", "Tue, 15 Nov 1994 08:12:31 GMT"))
+    # connection-management / hop-by-hop headers in the HOST's answer: the property says the client receives the host's headers
+    kind = "normal"
+    if rng.random() < 0.2:
+        rhs += rng.sample([("Keep-Alive", "timeout=5, max=100"), ("Connection", "keep-alive"), ("Upgrade", "h2c"),
+                           ("Connection", "x-ms-request-id"), ("x-ms-request-id", "7f"), ("Proxy-Connection", "keep-alive"),
+                           ("TE", "trailers"), ("Connection", "Upgrade"), ("keep-alive", "timeout=1")],
+                          rng.randint(1, 3))
+    r = rng.random()
+    if status not in (204, 304) and method != "HEAD":
+        if r < 0.035:
+            kind = "connclose"          # the host announces it closes the connection, and does
+            rhs.append((rng.choice(["Connection", "connection", "CONNECTION"]), rng.choice(["close", "Close", "close, x-foo"])))
+        elif r < 0.075 and len(rbody) > 4:
+            kind = "truncated"          # the host connection fails in the middle of the body
+    # at most ONE Connection header per answer: hyper joins repeated Connection headers into one comma-separated value (an
+    # equivalent spelling of the same list, but not byte-identical)
+    seen_conn, kept = False, []
+    for k, v in reversed(rhs):
+        if k.lower() == "connection":
+            if seen_conn:
+                continue
+            seen_conn = True
+        kept.append((k, v))
+    rhs = kept[::-1]
     rng.shuffle(rhs)
     rhs.insert(rng.randint(0, len(rhs)), ("X-Reply-Tag", tag))
     # the driver writes the JSON strings as UTF-8: that is what is on the wire, handled here as latin-1 text
@@ -134,12 +158,30 @@ def gen_exchange(rng, tag, key, last, quick):
     elif framing < 0.47 and last and method != "HEAD":
         reply["no_content_length"] = True        # body delimited by closing the connection
         reply["close"] = True
+    if kind == "connclose":
+        reply.pop("no_content_length", None)
+        reply["close"] = True
+    if kind == "truncated":
+        # head + a strict prefix of the body in the chosen framing, then the host closes: never a terminator / never the full length
+        chunked = rng.random() < 0.6
+        keep = rng.randint(1, len(rbody) - 1)
+        head = "HTTP/1.1 %d Status\r\n" % status + "".join("%s: %s\r\n" % kv for kv in rhs)
+        if chunked:
+            raw = (head + "Transfer-Encoding: chunked\r\n\r\n").encode("utf-8")
+            sizes, pos = cut(rng, keep, 6), 0
+            for i, c in enumerate(sizes):
+                whole = i < len(sizes) - 1 or rng.random() < 0.5
+                raw += b"%x\r\n" % (c if whole else c + rng.randint(1, 50)) + rbody[pos:pos + c] + (b"\r\n" if whole else b"")
+                pos += c
+        else:
+            raw = (head + "Content-Length: %d\r\n\r\n" % len(rbody)).encode("utf-8") + rbody[:keep]
+        reply = {"match": reply["match"], "raw_b64": e2e.base64.b64encode(raw).decode(), "close": True}
     if rng.random() < 0.45:
         reply["write_sizes"] = cut(rng, len(rbody) + 200, 9)
         reply["write_pause_ms"] = rng.choice([0, 1, 1, 2])
     if rng.random() < 0.2:
         reply["delay_ms"] = rng.randint(1, 4)
-    return {"tag": tag, "method": method, "target": target + frag, "sent_target": target, "headers": hs, "body": body, "chunks": chunks,
+    return {"tag": tag, "kind": kind, "dead": False, "method": method, "target": target + frag, "sent_target": target, "headers": hs, "body": body, "chunks": chunks,
             "status": status, "rheaders": rhs_wire, "rbody": rbody, "reply": reply, "key": key}
 
 
@@ -260,8 +302,10 @@ def read_connection_log(r):
 
 # ------------------------------------------------------------------------------------------
 def run(ctx):
-    vplib.gen_consts(ctx)
+    broken = rc.gen_consts_or_search(ctx)
     proofs_ok, detail = vplib.check_proofs(ctx)
+    if broken:
+        proofs_ok, detail = False, broken
     ctx.log("proofs:", proofs_ok, detail[:200])
     rng = ctx.rng
     stress = []
@@ -283,7 +327,18 @@ def run(ctx):
         for ci in range(rng.randint(1, 4)):
             k = rng.choice([1, 1, 2, 3, 5, 10]) if rng.random() < 0.8 else rng.randint(1, 10)
             xs = [gen_exchange(rng, "q%d-%d-%d" % (s, ci, i), key, i == k - 1, ctx.quick) for i in range(k)]
+            ended = False
+            for x in xs:
+                # after the host said `connection: close` (relayed to the client) or died mid-body, the client connection is over:
+                # the remaining pipelined requests must be neither answered nor relayed
+                x["dead"] = ended
+                ended = ended or x["kind"] in ("connclose", "truncated") or bool(x["reply"].get("close"))
             pipelined = k > 1 and rng.random() < 0.6
+            if any(x["kind"] != "normal" or x["reply"].get("close") for x in xs[:-1]):
+                # a connection that the host ends before the client's last request is driven request by request: with the later
+                # requests already written (pipelined) the proxy's close finds unread data and the kernel answers with a RESET,
+                # which can destroy responses the client has not read yet -- a property of TCP, not of the proxy
+                pipelined = False
             reqs = []
             for x in xs:
                 knobs = {}
@@ -291,7 +346,8 @@ def run(ctx):
                 if not pipelined and rng.random() < 0.3:
                     knobs = {"write_sizes": cut(rng, len(raw), 8), "write_pause_ms": rng.choice([0, 1, 2])}
                 reqs.append(e2e.req(raw, timeout_ms=60000, **knobs))
-                replies.append(x["reply"])
+                if not x["dead"]:
+                    replies.append(x["reply"])
             conns.append(e2e.conn(reqs, audit=e2e.audit(dest, uid=0), id=ci, pipelined=pipelined, timeout_ms=60000))
             pconns.append(xs)
             total += k
@@ -314,7 +370,20 @@ def run(ctx):
         ctx.log("search after the broken proof obligation: %d runs of the F12 witness, %d failing" % (len(stress), len(failures)))
     req_exprs, req_meta, resp_exprs, resp_meta = [], [], [], []
     n_pipelined = n_conn = 0
-    n_f12 = [0]
+    n_f12, n_dead, n_trunc = [0], [0], [0]
+
+    def add_request_model(case, x, up):
+        uh = rc.hdr_list(up)
+        dates = rc.values(uh, DATE)
+        path, q = rc.split_target(x["target"])
+        wire = [(k, rc.trim_ows(v)) for k, v in [("Host", "x")] + x["headers"]]
+        small = len(x["body"]) <= MODEL_BODY_MAX
+        frames = [x["body"]] if x["chunks"] is None else [x["body"][a:b] for a, b in spans(x["body"], x["chunks"])]
+        req_exprs.append("c14_request_case 1%%Z %s %s %s %s %s %s" % (
+            cb(dates[0] if len(dates) == 1 else "?"), cb(x["method"]), cb(path), rc.coq_opt(q), rc.coq_wire(wire),
+            clist([cb(f) for f in frames], "bytes") if small else "(@nil bytes)"))
+        req_meta.append((case, x, up, small))
+
     for s, (r, (dest, pconns)) in enumerate(zip(results, plan)):
         rp = {"scenario": e2e.jsonable(scenarios[s])}
         if not r.get("ok") or r.get("panics") or not r.get("drained"):
@@ -333,7 +402,7 @@ def run(ctx):
             # keep-alive: all requests of one client connection travel on ONE upstream connection, in order
             log_text = read_connection_log(r)
             f12 = [f12_class(i, x, responses, by_tag, log_text) for i, x in enumerate(xs)]
-            tags = [x["tag"] for x, k in zip(xs, f12) if not k]
+            tags = [x["tag"] for x, k in zip(xs, f12) if not k and not x["dead"]]
             if not any(u == tags for u in per_upstream):
                 failures.append({"case": dict(rp, connection=ci), "impl": per_upstream,
                                  "why": "requests %s of one keep-alive connection did not arrive in order on one upstream connection" % tags})
@@ -343,6 +412,16 @@ def run(ctx):
                     n_f12[0] += 1
                     failures.append({"case": case, "f12": True, "why": F12_WHAT, "impl": {"status": 503, "relayed": 0}})
                     continue
+                if x["dead"]:
+                    # sent after the host ended the connection (and the client was told / the transfer was aborted): the proxy
+                    # must not make up an answer for it
+                    n_dead[0] += 1
+                    if i < len(responses) and responses[i].get("complete") and b"x-reply-tag" not in responses[i]["raw"].lower():
+                        failures.append({"case": case, "impl": rc.short(responses[i]["raw"][:200]),
+                                         "why": "response leg: the host ended the connection with an earlier response on this keep-alive "
+                                                "connection, yet request %s was answered %s by the proxy itself -- the client was not "
+                                                "given the host's connection-management headers / the abort" % (x["tag"], responses[i].get("status"))})
+                    continue
                 ups = by_tag.get(x["tag"], [])
                 if len(ups) != 1:
                     failures.append({"case": case, "why": "request %s reached the host %d times" % (x["tag"], len(ups)), "impl": None})
@@ -351,6 +430,18 @@ def run(ctx):
                 why = prop_request(x, up)
                 if why:
                     failures.append({"case": case, "why": "request leg: " + why, "impl": rc.short(up["start_line"])})
+                if x["kind"] == "truncated":
+                    # the host died mid-body: the client may see an aborted transfer, never a well-terminated shorter body
+                    n_trunc[0] += 1
+                    if i < len(responses) and responses[i].get("complete"):
+                        resp = e2e.parse_http(responses[i]["raw"])
+                        if resp is not None and resp["body"] != x["rbody"]:
+                            failures.append({"case": case, "impl": rc.short(responses[i]["raw"][-120:]),
+                                             "why": "response leg: the host connection failed after %d of %d body bytes, but the client received "
+                                                    "a well-terminated response with a %d-byte body (silent truncation)" % (
+                                                        len(resp["body"]), len(x["rbody"]), len(resp["body"]))})
+                    add_request_model(case, x, up)
+                    continue
                 if i >= len(responses) or not responses[i].get("complete"):
                     failures.append({"case": case, "why": "no complete response delivered for request %s" % x["tag"],
                                      "impl": responses[i] if i < len(responses) else None})
@@ -366,16 +457,7 @@ def run(ctx):
                 if why:
                     failures.append({"case": case, "why": "response leg: " + why, "impl": rc.short(resp["start_line"])})
                 # ---- model inputs
-                uh = rc.hdr_list(up)
-                dates = rc.values(uh, DATE)
-                path, q = rc.split_target(x["target"])
-                wire = [(k, rc.trim_ows(v)) for k, v in [("Host", "x")] + x["headers"]]
-                small = len(x["body"]) <= MODEL_BODY_MAX
-                frames = [x["body"]] if x["chunks"] is None else [x["body"][a:b] for a, b in spans(x["body"], x["chunks"])]
-                req_exprs.append("c14_request_case 1%%Z %s %s %s %s %s %s" % (
-                    cb(dates[0] if len(dates) == 1 else "?"), cb(x["method"]), cb(path), rc.coq_opt(q), rc.coq_wire(wire),
-                    clist([cb(f) for f in frames], "bytes") if small else "(@nil bytes)"))
-                req_meta.append((case, x, up, small))
+                add_request_model(case, x, up)
                 rsmall = len(x["rbody"]) <= MODEL_BODY_MAX
                 rframes = [] if x["method"] == "HEAD" else \
                     [x["rbody"][a:b] for a, b in spans(x["rbody"], x["reply"].get("chunked") or [max(1, len(x["rbody"]))])]
@@ -385,6 +467,8 @@ def run(ctx):
                 resp_meta.append((case, x, resp, rsmall))
 
     # ---------------- model ----------------
+    if broken:
+        req_exprs, req_meta, resp_exprs, resp_meta = [], [], [], []          # stale constants: predicate only
     mreq = vplib.coq_eval(ctx, "From GPA Require Import Relay.", req_exprs, shard=25, name="req")
     mresp = vplib.coq_eval(ctx, "From GPA Require Import Relay.", resp_exprs, shard=25, name="resp")
     ctx.log("model: %d request legs, %d response legs evaluated" % (len(mreq), len(mresp)))
@@ -422,7 +506,10 @@ def run(ctx):
                 "mixed-case / look-alike names and odd token characters, bodies 0 B-100 KiB (binary, multi-byte UTF-8, framing "
                 "look-alikes) with Content-Length or chunked in adversarial chunk sizes and split TCP writes, host answers of 31 "
                 "status codes with 0-20 headers, binary bodies by Content-Length / chunked (1-byte chunks) / connection close, "
-                "delivered in adversarial TCP write sizes with pauses; non-trivial = has headers and a body on some leg",
+                "delivered in adversarial TCP write sizes with pauses; a fifth of the answers carry hop-by-hop / connection-management headers "
+                "(connection, keep-alive, upgrade, proxy-connection, te, trailer), some announce `connection: close` and close (later "
+                "pipelined requests must then not be answered by the proxy), some break off in the middle of a chunked or "
+                "Content-Length body (the client must not see a well-terminated shorter body); non-trivial = has headers and a body on some leg",
         "exhaustive": False,
         "samples": [{"request": "%s %s" % (x["method"], x["target"]), "request_headers": len(x["headers"]), "request_body": len(x["body"]),
                      "chunks": x["chunks"] if x["chunks"] is None else x["chunks"][:6], "status": x["status"],
@@ -435,7 +522,11 @@ def run(ctx):
                                "chunked_replies": sum(1 for x in allx if "chunked" in x["reply"]),
                                "segmented_replies": sum(1 for x in allx if "write_sizes" in x["reply"]),
                                "with_latched_key": sum(1 for x in allx if x["key"]),
-                               "known_finding_F12_occurrences": n_f12[0]},
+                               "known_finding_F12_occurrences": n_f12[0],
+                               "replies_with_hop_by_hop_headers": sum(1 for x in allx if any(k.lower() in (
+                                   "connection", "keep-alive", "upgrade", "proxy-connection", "te", "trailer") for k, _ in x["rheaders"])),
+                               "replies_announcing_connection_close": sum(1 for x in allx if x["kind"] == "connclose"),
+                               "replies_truncated_mid_body": n_trunc[0], "requests_after_the_host_ended_the_connection": n_dead[0]},
     })
     ctx.assumptions += [
         "hyper's HTTP/1.1 parsing and framing on both legs are outside the model; the comparison is modulo Content-Length / "
